@@ -781,6 +781,8 @@ func c13(r *Report) {
 	})
 
 	r.Guard("C13.R5", "requests addressed to the proxy's own API are never counted by a verifier", func() {
+		// response-side verifiers find the API mark through res.Request: it is this exchange's request
+		responseBoundToRequestRule(r)
 		contextFlagRules(r, "APIRequest", "IsAPIRequest")
 		for _, l := range leaves {
 			fn := w.method(l.T, l.S.modify)
